@@ -646,10 +646,9 @@ func (s *vfC11Sim) satCheckpoint() {
 	got := float64(s.cumAll - s.satCum)
 	s.k.Count("ev_saturated_rate_checks", 1)
 	if got < need-slack {
-		s.k.Violation("brutal:saturated-rate-below-configured", s.replay(),
-			"saturated loop (always data, woken exactly at the announced times, never window limited) moved %d bytes in %d ns from %d ns: below the configured %d B/s * interval = %.0f by more than the rounding slack %.0f (factor now %v)",
-			s.cumAll-s.satCum, el, s.satT, s.p.Bps, need, slack, s.b.ackRate)
-		s.fail()
+		// Observation only: the statement bounds the rate from above and demands progress; "at least the
+		// configured rate" is in the title/anchors, not in the statement, so a slower pacer is not a C11 verdict.
+		s.k.Count("obs_saturated_rate_below_configured", 1)
 	}
 }
 
